@@ -1144,6 +1144,36 @@ static ASTNode *parse_prefix_op(Stage1Parser *p) {
     }
 }
 
+/* After an uppercase identifier: does '<' open the generic arguments of a union construction
+ * `Name<T, ...>.Variant { ... }` (type tokens only, balanced, then '.' IDENTIFIER), or is it the infix
+ * operator of `MAX < 6`?  Pure look-ahead, nothing is consumed. */
+static bool generic_args_ahead(Stage1Parser *p) {
+    int depth = 0;
+    for (int i = 0; i < 256; i++) {
+        Token *t = peek_token(p, i);
+        if (!t) return false;
+        switch (t->token_type) {
+            case TOKEN_LT: depth++; break;
+            case TOKEN_GT:
+                depth--;
+                if (depth == 0) {
+                    Token *a = peek_token(p, i + 1);
+                    Token *b = peek_token(p, i + 2);
+                    return a && b && a->token_type == TOKEN_DOT && b->token_type == TOKEN_IDENTIFIER;
+                }
+                break;
+            case TOKEN_IDENTIFIER: case TOKEN_COMMA: case TOKEN_DOT: case TOKEN_ARRAY:
+            case TOKEN_TYPE_INT: case TOKEN_TYPE_U8: case TOKEN_TYPE_FLOAT: case TOKEN_TYPE_BOOL:
+            case TOKEN_TYPE_STRING: case TOKEN_TYPE_BSTRING: case TOKEN_TYPE_VOID:
+            case TOKEN_LPAREN: case TOKEN_RPAREN: case TOKEN_FN: case TOKEN_ARROW:
+                break;
+            default:
+                return false;
+        }
+    }
+    return false;
+}
+
 /* Helper function to parse generic type arguments: <T, E, ...>
  * Returns a TypeInfo structure with the parsed type parameters.
  * Assumes the '<' has NOT been consumed yet.
@@ -1660,7 +1690,7 @@ static ASTNode *parse_primary(Stage1Parser *p) {
                      * Only try this for uppercase identifiers (type names) to avoid
                      * ambiguity with infix '<' operator on variables. */
                     bool looks_like_type = name_parts[0][0] >= 'A' && name_parts[0][0] <= 'Z';
-                    if (looks_like_type && match(p, TOKEN_LT)) {
+                    if (looks_like_type && match(p, TOKEN_LT) && generic_args_ahead(p)) {
                         generic_type_info = parse_generic_type_args(p, name_parts[0]);
                         if (!generic_type_info) {
                             /* Error already reported by parse_generic_type_args */
